@@ -4,6 +4,7 @@ package tdb
 
 import (
 	"bytes"
+	"os"
 	"sync/atomic"
 	"errors"
 	"fmt"
@@ -15,6 +16,8 @@ import (
 	"time"
 
 	"github.com/cilium/statedb"
+
+	"verifharness/vk"
 )
 
 const (
@@ -302,12 +305,54 @@ const gcInterval = 50 * time.Millisecond
 // Run executes one case. Cases with GC run inside a synctest bubble.
 func Run(t *testing.T, c Case, own string, opt Options) (res result) {
 	if c.GC {
+		// A goroutine blocked on a table lock is not "durably blocked" for
+		// synctest: a lock leaked by the collector would hang the bubble
+		// silently. A real-time watchdog outside the bubble turns that into a
+		// verdict: no case takes anywhere near this long.
+		if own == "C10" {
+			// leave the case on disk: statedb's own finalizer check panics (and
+			// kills the process) when a leaked write transaction is collected
+			vk.WriteInProgress("C10", HangTest, c, "the process died while this case ran: statedb's finalizer found a write transaction that was never committed or aborted (a leaked table lock), or the case hung")
+		}
+		done := make(chan struct{})
+		go func() {
+			select {
+			case <-done:
+			case <-time.After(hangAfter):
+				// report first, allocate later: a garbage collection may run the
+				// finalizer of a leaked write transaction, which panics
+				msg := fmt.Sprintf("the case did not finish within %v of real time: a write transaction, iterator Close or collector round is blocked forever (virtual time cannot advance while a goroutine waits for a table lock)", hangAfter)
+				if own == "C10" {
+					path := vk.WriteReplay("C10", HangTest, c, "hang", msg)
+					fmt.Printf("VERIF-VIOLATION property=C10 test=%s sig=hang replay=%s\n", HangTest, path)
+					os.Stdout.Sync()
+					buf := make([]byte, 1<<16)
+					fmt.Printf("%s\n", buf[:runtime.Stack(buf, true)])
+					os.Exit(1)
+				}
+				fmt.Printf("VERIF-HANG (owned by C10, this run is %s): %s\n", own, firstN(msg, 600))
+				os.Exit(3)
+			}
+		}()
+		defer close(done)
 		synctest.Test(t, func(*testing.T) {
 			res = run(c, own, opt)
 		})
 		return res
 	}
 	return run(c, own, opt)
+}
+
+// HangTest is the test that owns hang verdicts.
+const HangTest = "TestC10Graveyard"
+
+var hangAfter = 30 * time.Second
+
+func firstN(s string, n int) string {
+	if len(s) > n {
+		return s[:n]
+	}
+	return s
 }
 
 func run(c Case, own string, opt Options) result {
